@@ -163,6 +163,26 @@ func tokIDs(b []int) []int {
 	return ids
 }
 
+// tokIDsByEnvelope splits the payload tokens of a redactable's content into those outside and those inside its envelopes.
+func tokIDsByEnvelope(b []int) (outside, inside []int) {
+	open := false
+	for i := 0; i < len(b); i++ {
+		if i+2 < len(b) && b[i] == 0xE2 && b[i+1] == 0x80 && (b[i+2] == 0xB9 || b[i+2] == 0xBA) {
+			open = b[i+2] == 0xB9
+			i += 2
+			continue
+		}
+		if b[i] >= PTok {
+			if open {
+				inside = append(inside, b[i]-PTok)
+			} else {
+				outside = append(outside, b[i]-PTok)
+			}
+		}
+	}
+	return
+}
+
 func pubWalk(t *Term, inh string, ro bool, pub map[int]bool) {
 	if t == nil {
 		return
@@ -199,7 +219,12 @@ func pubWalk(t *Term, inh string, ro bool, pub map[int]bool) {
 	case "complex":
 		pub[-t.ID] = own == "safe"
 	case "rstring", "rbytes":
-		mark(tokIDs(t.B), own != "unsafe")
+		// what stands inside the redactable's own envelopes is unsafe data like any other -- unless the whole operand
+		// stands under a Safe() declaration (the outermost declaration wins: nested in a container such a wrapper is
+		// rendered by the standard fmt, which shows the content with its markers escaped)
+		outside, inside := tokIDsByEnvelope(t.B)
+		mark(outside, own != "unsafe")
+		mark(inside, own == "safe")
 	case "obj":
 		// the underlying value of the object (its methods' texts are classified below): public only if every
 		// occurrence of the object stands under a safe declaration
